@@ -110,6 +110,9 @@ type c10Result struct {
 	labels    map[string]bool
 }
 
+// c10DebugDump makes runC10 print the trace and the PKO objects at the end (development aid, see TestDebugC10).
+var c10DebugDump bool
+
 var c10FaultKinds = []kubesim.Fault{kubesim.FaultErrorBefore, kubesim.FaultLostResponse, kubesim.FaultCrash, kubesim.FaultCrashAfter}
 
 // runC10 executes the script with the disturbance and then lets the fair scheduler run to quiescence.
@@ -212,6 +215,39 @@ func runC10(script *Scenario, d C10Disturbance) (*c10Result, error) {
 		}
 	}
 	res.proj = projectEndState(r)
+	if c10DebugDump {
+		for _, c := range r.W.Store.Trace {
+			if c.Actor != "setup" && (c.Changed() || c.Err != "") {
+				fmt.Printf("%4d p%-3d %-10s %-8s %-13s %-5s dry=%v %s err=%q\n", c.Seq, c.Pass, c.Actor, c.Source, c.Verb, c.PatchType, c.DryRun, c.Key, trunc(c.Err, 100))
+			}
+		}
+		for _, k := range r.W.Store.Keys() {
+			if k.Group == engine.PKOGroup {
+				fmt.Printf("== %s\n%s\n", k, mustJSON(r.W.Store.Peek(k)))
+			}
+		}
+	}
+	// situation of the open C09/C15 finding: a paused ObjectSet stops at an earlier failing phase and never pauses the
+	// ObjectSetPhase of a later delegated phase, so its Paused condition never becomes True (and a deployment waiting for
+	// that confirmation never archives it)
+	for _, kind := range []string{"ObjectSet", "ClusterObjectSet"} {
+		for _, k := range r.W.ListKeys(engine.PKOGroup, kind) {
+			set := r.W.Store.PeekNoCopy(k)
+			if lifecycleOf(set) != "Paused" || condTrue(set, "Paused") {
+				continue
+			}
+			for i, ph := range OwnerPhases(r.W.Store, set) {
+				if i == 0 || ph.Class == "" {
+					continue
+				}
+				if po := r.W.Store.PeekNoCopy(phaseObjectKey(set, ph)); po != nil {
+					if p, _ := asMap(po["spec"])["paused"].(bool); !p {
+						r.Labels["paused-objectset-with-unpaused-later-delegated-phase"] = true
+					}
+				}
+			}
+		}
+	}
 	if ok {
 		// one more full round must change nothing
 		for _, kind := range []string{"Package", "ObjectDeployment", "ObjectSet", "ObjectSetPhase"} {
@@ -272,7 +308,11 @@ func checkC10(ref, got *c10Result) error {
 			}
 		}
 		sort.Strings(others)
-		return Violf("C10", "end-state-differs-from-undisturbed-run", "the end state differs from the undisturbed run: %s (all differing objects: %v)", firstDiff(ref.proj, got.proj), others)
+		key := "end-state-differs-from-undisturbed-run"
+		if got.labels["paused-objectset-with-unpaused-later-delegated-phase"] && !ref.labels["paused-objectset-with-unpaused-later-delegated-phase"] {
+			key += ":paused-objectset-never-reaches-later-delegated-phase"
+		}
+		return Violf("C10", key, "the end state differs from the undisturbed run: %s (all differing objects: %v)", firstDiff(ref.proj, got.proj), others)
 	}
 	return nil
 }
